@@ -540,14 +540,37 @@ type Info struct {
 	BadNumber string // NaN/Inf/unparseable number met
 	BadUTF8   bool   // some string is not valid UTF-8
 	NumKinds  map[string]int
+	path      map[uintptr]bool // containers on the current recursion path (cycle detection)
 }
 
 // FromGo normalises a Go value of the kinds the library accepts/returns.
 func FromGo(x any) (Val, Info) {
 	var info Info
-	v := fromGo(x, &info)
+	v := fromGo(x, &info, 0)
 	return v, info
 }
+
+// maxDepth bounds the recursion over Go data: a result that is deeper (in
+// particular a cyclic one, which no JSON value is) is reported as foreign
+// instead of overflowing the harness's own stack.
+const maxDepth = 20000
+
+// enter records a container on the recursion path; true = already there (cycle).
+func (info *Info) enter(p uintptr) bool {
+	if info.path == nil {
+		info.path = map[uintptr]bool{}
+	}
+	if info.path[p] {
+		if info.Foreign == "" {
+			info.Foreign = "cyclic value"
+		}
+		return true
+	}
+	info.path[p] = true
+	return false
+}
+
+func (info *Info) leave(p uintptr) { delete(info.path, p) }
 
 func noteKind(info *Info, k string) {
 	if info.NumKinds == nil {
@@ -556,7 +579,13 @@ func noteKind(info *Info, k string) {
 	info.NumKinds[k]++
 }
 
-func fromGo(x any, info *Info) Val {
+func fromGo(x any, info *Info, depth int) Val {
+	if depth > maxDepth {
+		if info.Foreign == "" {
+			info.Foreign = "cyclic or excessively deep value"
+		}
+		return VNull()
+	}
 	switch x := x.(type) {
 	case nil:
 		return VNull()
@@ -623,21 +652,35 @@ func fromGo(x any, info *Info) Val {
 		if x == nil {
 			info.NilSlice = true
 		}
+		if len(x) > 0 {
+			p := reflect.ValueOf(x).Pointer()
+			if info.enter(p) {
+				return VNull()
+			}
+			defer info.leave(p)
+		}
 		a := make([]Val, len(x))
 		for i, e := range x {
-			a[i] = fromGo(e, info)
+			a[i] = fromGo(e, info, depth+1)
 		}
 		return VArr(a)
 	case map[string]any:
 		if x == nil {
 			info.NilMap = true
 		}
+		if len(x) > 0 {
+			p := reflect.ValueOf(x).Pointer()
+			if info.enter(p) {
+				return VNull()
+			}
+			defer info.leave(p)
+		}
 		ms := make([]Member, 0, len(x))
 		for k, e := range x {
 			if !utf8.ValidString(k) {
 				info.BadUTF8 = true
 			}
-			ms = append(ms, Member{k, fromGo(e, info)})
+			ms = append(ms, Member{k, fromGo(e, info, depth+1)})
 		}
 		return VObj(ms)
 	}
